@@ -18,6 +18,19 @@ use searchlite_ffi::{searchlite_add_json, searchlite_commit, searchlite_index_cl
 
 const NIDS: u64 = 5;
 
+/// External form of document id number `i`. Every fourth id contains an inner blank: an id is one
+/// string for every front end, whatever characters it holds.
+fn id_str(i: u64) -> String {
+  if i % 4 == 3 { format!("d{i} x") } else { format!("d{i}") }
+}
+
+fn id_num(s: &str) -> Option<u64> {
+  let t = s.strip_prefix('d')?;
+  let t = t.strip_suffix(" x").unwrap_or(t);
+  let i = t.parse::<u64>().ok()?;
+  if id_str(i) == s { Some(i) } else { None }
+}
+
 fn opts(path: &Path, create: bool) -> IndexOptions {
   IndexOptions {
     path: path.to_path_buf(),
@@ -39,17 +52,17 @@ fn create_index(path: &Path) {
 }
 
 fn good_json(i: u64, v: u64) -> Value {
-  json!({"_id": format!("d{i}"), "body": format!("w{v} common rust"), "tag": if v % 2 == 0 { "t" } else { "u" }, "n": v})
+  json!({"_id": id_str(i), "body": format!("w{v} common rust"), "tag": if v % 2 == 0 { "t" } else { "u" }, "n": v})
 }
 
 fn invalid_json(rng: &mut Rng) -> Value {
   let i = rng.below(NIDS);
   match rng.below(6) {
-    5 => json!({"_id": format!("d{i}"), "boty": "a field the schema does not have"}),
+    5 => json!({"_id": id_str(i), "boty": "a field the schema does not have"}),
     0 => json!({"body": "no id"}),
     1 => json!({"_id": "", "body": "x"}),
-    2 => json!({"_id": format!("d{i}"), "n": "x"}),
-    3 => json!({"_id": format!("d{i}"), "body": 5}),
+    2 => json!({"_id": id_str(i), "n": "x"}),
+    3 => json!({"_id": id_str(i), "body": 5}),
     _ => json!({"_id": 7}),
   }
 }
@@ -79,7 +92,7 @@ enum Call {
 fn call_coq(c: &Call) -> String {
   match c {
     Call::Add(d, true) => {
-      let i = d["_id"].as_str().unwrap()[1..].parse::<u64>().unwrap();
+      let i = id_num(d["_id"].as_str().unwrap()).unwrap();
       format!("ApiAdd (VGood {i} {})", d["n"].as_u64().unwrap())
     }
     Call::Add(_, false) => "ApiAdd VInvalid".into(),
@@ -111,7 +124,7 @@ fn probe_requests(rng: &mut Rng) -> Vec<Value> {
 fn hits_of(result: &Value) -> Option<Vec<(u64, u64)>> {
   let mut m = Vec::new();
   for h in result.get("hits")?.as_array()? {
-    let id = h.get("doc_id")?.as_str()?.strip_prefix('d')?.parse::<u64>().ok()?;
+    let id = id_num(h.get("doc_id")?.as_str()?)?;
     let n = h.pointer("/fields/n")?.as_u64()?;
     m.push((id, n));
   }
@@ -151,7 +164,7 @@ fn lib_exec(index: &Path, calls: &[Call], probes: &[Value], out: &mut Vec<String
         out.push(if r.is_ok() { "AOk".into() } else { "AErr".into() });
       }
       Call::Delete(ids) => {
-        let ids: Vec<String> = ids.iter().map(|i| format!("d{i}")).collect();
+        let ids: Vec<String> = ids.iter().map(|i| id_str(*i)).collect();
         let r = writer.as_mut().unwrap().delete_documents(&ids);
         out.push(if r.is_ok() { "AOk".into() } else { "AErr".into() });
       }
@@ -321,7 +334,7 @@ fn case_cli(rng: &mut Rng, cli: &Cli) -> (String, Value, bool) {
       }
       40..=54 => {
         let k = 1 + rng.below(3);
-        let mut lines: Vec<(String, String)> = (0..k).map(|_| { let i = rng.below(NIDS + 1); (format!("ILId {i}"), format!(" d{i} ")) }).collect();
+        let mut lines: Vec<(String, String)> = (0..k).map(|_| { let i = rng.below(NIDS + 1); (format!("ILId {i}"), format!(" {} ", id_str(i))) }).collect();
         match rng.below(6) {
           0 => lines.insert(rng.below(lines.len() as u64 + 1) as usize, ("ILControl".into(), "d1\u{0007}x".into())),
           1 => lines = vec![("ILBlank".into(), "  ".into())],
@@ -474,7 +487,7 @@ fn case_http(rng: &mut Rng, rt: &tokio::runtime::Runtime) -> (String, Value, boo
       }
       45..=56 => {
         let k = 1 + rng.below(3);
-        let mut ids: Vec<(String, String)> = (0..k).map(|_| { let i = rng.below(NIDS + 1); (format!("IdOk {i}"), format!("d{i}")) }).collect();
+        let mut ids: Vec<(String, String)> = (0..k).map(|_| { let i = rng.below(NIDS + 1); (format!("IdOk {i}"), id_str(i)) }).collect();
         if rng.chance(1, 4) {
           ids.insert(rng.below(ids.len() as u64 + 1) as usize, ("IdBad".into(), rng.pick(&["", " d1", "d\u{0001}"][..]).to_string()));
         }
@@ -624,7 +637,7 @@ fn case_ffi(rng: &mut Rng) -> (String, Value, bool) {
           _ => {
             calls.push(Call::Add(v.clone(), true));
             calls.push(Call::Commit);
-            cmds.push(format!("FfiAddJson (Some (VGood {} {}))", v["_id"].as_str().unwrap()[1..].parse::<u64>().unwrap(), v["n"].as_u64().unwrap()));
+            cmds.push(format!("FfiAddJson (Some (VGood {} {}))", id_num(v["_id"].as_str().unwrap()).unwrap(), v["n"].as_u64().unwrap()));
           }
         }
         obs.push(format!("FRet {}", coq::z(ret as i64)));
